@@ -26,7 +26,7 @@ CONSTANTS Pool,          \* set of inbound records the peer may send
           MaxCancel,     \* bound on CancelRequest invocations
           Ids,           \* ids CancelRequest may name
           RecvUnblocks,  \* does Close() on the channel unblock a pending Recv?
-          Faults,        \* subset of {"stop","peerclose","recverr","sendfail","restart"}
+          Faults,        \* subset of {"stop","peerclose","recverr","sendfail","restart","baseend"}
           Fixed          \* record of BOOLEAN switches F1, F23, F4, F7, F9
 
 (***************************************************************************)
@@ -68,10 +68,11 @@ VARIABLES
   gen,        \* generation (number of Start calls)
   ncancel,    \* CancelRequest invocations so far
   crashed,    \* "none" or the name of the crash (only reachable with a Fixed switch off)
+  basedone,   \* the context ServerOptions.NewContext hands out has ended (every request context derives from it)
   out         \* records sent (observation only; kept out of VIEW)
 
 vars == <<nin, peerClosed, rdbuf, rdpc, inq, work, dpc, dbatch, nbar, task, bat, sem, semq,
-          used, calls, callID, cb, cbw, npush, ch, err, sendOK, wsret, gen, ncancel, crashed, out>>
+          used, calls, callID, cb, cbw, npush, ch, err, sendOK, wsret, gen, ncancel, crashed, basedone, out>>
 
 None  == [kind |-> "none"]
 EOFr  == [kind |-> "eof"]
@@ -96,7 +97,7 @@ Init ==
   /\ task = EmptyFn /\ bat = <<>> /\ sem = 0 /\ semq = <<>>
   /\ used = EmptyFn /\ calls = EmptyFn /\ callID = 1 /\ cb = EmptyFn /\ cbw = EmptyFn /\ npush = 0
   /\ ch = "open" /\ err = "none" /\ sendOK = TRUE /\ wsret = FALSE /\ gen = 1
-  /\ ncancel = 0 /\ crashed = "none" /\ out = <<>>
+  /\ ncancel = 0 /\ crashed = "none" /\ basedone = FALSE /\ out = <<>>
 
 (***************************************************************************)
 (* Helpers on tasks.                                                       *)
@@ -168,7 +169,7 @@ NoStopEffect == UNCHANGED <<ch, err, inq, work, task, semq, sem, used, cbw, rdbu
 Stop ==
   /\ Alive /\ "stop" \in Faults /\ ~wsret
   /\ IF ch = "open" THEN StopEffect("stopped") ELSE NoStopEffect
-  /\ UNCHANGED <<nin, peerClosed, dbatch, nbar, bat, calls, callID, cb, npush, sendOK, wsret, gen, ncancel, crashed, out>>
+  /\ UNCHANGED <<basedone, nin, peerClosed, dbatch, nbar, bat, calls, callID, cb, npush, sendOK, wsret, gen, ncancel, crashed, out>>
 
 (***************************************************************************)
 (* The peer.                                                               *)
@@ -176,26 +177,26 @@ Stop ==
 PeerSend(m) ==
   /\ Alive /\ nin < MaxIn /\ ~peerClosed /\ rdpc = "recv" /\ rdbuf = None
   /\ rdbuf' = [m EXCEPT !.n = nin + 1] /\ rdpc' = "proc" /\ nin' = nin + 1
-  /\ UNCHANGED <<peerClosed, inq, work, dpc, dbatch, nbar, task, bat, sem, semq, used, calls, callID,
+  /\ UNCHANGED <<basedone, peerClosed, inq, work, dpc, dbatch, nbar, task, bat, sem, semq, used, calls, callID,
                  cb, cbw, npush, ch, err, sendOK, wsret, gen, ncancel, crashed, out>>
 
 PeerClose ==
   /\ Alive /\ "peerclose" \in Faults /\ ~peerClosed
   /\ peerClosed' = TRUE
   /\ IF rdpc = "recv" /\ rdbuf = None THEN rdbuf' = EOFr /\ rdpc' = "proc" ELSE UNCHANGED <<rdbuf, rdpc>>
-  /\ UNCHANGED <<nin, inq, work, dpc, dbatch, nbar, task, bat, sem, semq, used, calls, callID,
+  /\ UNCHANGED <<basedone, nin, inq, work, dpc, dbatch, nbar, task, bat, sem, semq, used, calls, callID,
                  cb, cbw, npush, ch, err, sendOK, wsret, gen, ncancel, crashed, out>>
 
 RecvError ==   \* the channel's Recv fails with a non-EOF error
   /\ Alive /\ "recverr" \in Faults /\ ~peerClosed /\ rdpc = "recv" /\ rdbuf = None
   /\ peerClosed' = TRUE /\ rdbuf' = ERRr /\ rdpc' = "proc"
-  /\ UNCHANGED <<nin, inq, work, dpc, dbatch, nbar, task, bat, sem, semq, used, calls, callID,
+  /\ UNCHANGED <<basedone, nin, inq, work, dpc, dbatch, nbar, task, bat, sem, semq, used, calls, callID,
                  cb, cbw, npush, ch, err, sendOK, wsret, gen, ncancel, crashed, out>>
 
 SendFails ==   \* from now on the channel's Send reports an error
   /\ Alive /\ "sendfail" \in Faults /\ sendOK
   /\ sendOK' = FALSE
-  /\ UNCHANGED <<nin, peerClosed, rdbuf, rdpc, inq, work, dpc, dbatch, nbar, task, bat, sem, semq, used,
+  /\ UNCHANGED <<basedone, nin, peerClosed, rdbuf, rdpc, inq, work, dpc, dbatch, nbar, task, bat, sem, semq, used,
                  calls, callID, cb, cbw, npush, ch, err, wsret, gen, ncancel, crashed, out>>
 
 Emit(rec) == IF sendOK THEN Append(out, rec) ELSE out
@@ -248,7 +249,7 @@ RdProcess ==
                  ELSE UNCHANGED <<crashed, work, dpc>>
               /\ rdbuf' = ReaderNext[1] /\ rdpc' = ReaderNext[2]
               /\ out' = out
-  /\ UNCHANGED <<nin, peerClosed, dbatch, nbar, task, bat, sem, semq, used, callID, npush, ch, err,
+  /\ UNCHANGED <<basedone, nin, peerClosed, dbatch, nbar, task, bat, sem, semq, used, callID, npush, ch, err,
                  sendOK, wsret, gen, ncancel>>
 
 RdFail ==   \* Recv reported an error: stopLocked(err) and exit
@@ -258,7 +259,7 @@ RdFail ==   \* Recv reported an error: stopLocked(err) and exit
           /\ rdbuf' = None /\ rdpc' = "done"     \* overrides the reader part of StopEffect
      ELSE /\ UNCHANGED <<ch, err, inq, work, task, semq, sem, used, cbw, dpc>>
           /\ rdbuf' = None /\ rdpc' = "done"
-  /\ UNCHANGED <<nin, peerClosed, dbatch, nbar, bat, calls, callID, cb, npush, sendOK, wsret, gen,
+  /\ UNCHANGED <<basedone, nin, peerClosed, dbatch, nbar, bat, calls, callID, cb, npush, sendOK, wsret, gen,
                  ncancel, crashed, out>>
 
 (***************************************************************************)
@@ -271,7 +272,7 @@ Assign(mem) ==
   [i \in 1..Len(mem) |->
      LET x   == mem[i].v
          dup == x.id # 0 /\ (InBatchDup(mem, i) \/ x.id \in DOMAIN used)
-         base == [k |-> x.k, id |-> x.id, m |-> x.m, cx |-> FALSE, rsv |-> FALSE, st |-> "fail", res |-> "-"]
+         base == [k |-> x.k, id |-> x.id, m |-> x.m, cx |-> basedone, rsv |-> FALSE, st |-> "fail", res |-> "-"]   \* setContext: derived from newctx()
      IN  IF dup           THEN [base EXCEPT !.res = "dup"]    \* overrides a validation error
          ELSE IF x.k = "inv"  THEN [base EXCEPT !.res = "inv"]
          ELSE IF x.k = "reply" THEN [base EXCEPT !.res = "emptymethod"]
@@ -301,7 +302,7 @@ DpLock ==   \* nextRequest: take the lock, look at the queue
                             live |-> (ch = "open"), sent |-> FALSE]
               /\ dpc' = "barrier"
               /\ work' = work
-  /\ UNCHANGED <<nin, peerClosed, rdbuf, rdpc, nbar, bat, sem, semq, calls, callID, cb, cbw, npush,
+  /\ UNCHANGED <<basedone, nin, peerClosed, rdbuf, rdpc, nbar, bat, sem, semq, calls, callID, cb, cbw, npush,
                  ch, err, sendOK, wsret, gen, ncancel, crashed, out>>
 
 TodoNotes(B) == Cardinality({i \in 1..Len(B.mem) : task[B.mem[i]].st = "todo" /\ IsNoteTask(task[B.mem[i]])})
@@ -314,7 +315,7 @@ DpBarrier ==
   /\ nbar' = TodoNotes(dbatch)
   /\ bat' = Append(bat, dbatch)
   /\ dbatch' = None /\ dpc' = "lock"
-  /\ UNCHANGED <<nin, peerClosed, rdbuf, rdpc, inq, work, task, sem, semq, used, calls, callID, cb, cbw,
+  /\ UNCHANGED <<basedone, nin, peerClosed, rdbuf, rdpc, inq, work, task, sem, semq, used, calls, callID, cb, cbw,
                  npush, ch, err, sendOK, wsret, gen, ncancel, crashed, out>>
 
 (***************************************************************************)
@@ -333,7 +334,7 @@ WkAcquire(s) ==   \* release gate srv.invoke.acquire: sem.Acquire(ctx, 1)
      THEN /\ task' = [task EXCEPT ![s].st = "run"] /\ sem' = sem + 1 /\ semq' = semq
      ELSE /\ task' = [task EXCEPT ![s].st = "semwait"] /\ semq' = Append(semq, s) /\ sem' = sem
   /\ nbar' = IF task[s].cx /\ IsNoteTask(task[s]) THEN nbar - 1 ELSE nbar
-  /\ UNCHANGED <<nin, peerClosed, rdbuf, rdpc, inq, work, dpc, dbatch, bat, used, calls, callID, cb, cbw,
+  /\ UNCHANGED <<basedone, nin, peerClosed, rdbuf, rdpc, inq, work, dpc, dbatch, bat, used, calls, callID, cb, cbw,
                  npush, ch, err, sendOK, wsret, gen, ncancel, crashed, out>>
 
 Outcomes == {"ok", "err"}
@@ -344,7 +345,7 @@ HReturn(s, o) ==  \* the handler returns; slot released; FIFO head granted
          st  == Settle(tk1, semq, sem - 1)
      IN  task' = st[1] /\ semq' = st[2] /\ sem' = st[3]
   /\ nbar' = IF IsNoteTask(task[s]) THEN nbar - 1 ELSE nbar
-  /\ UNCHANGED <<nin, peerClosed, rdbuf, rdpc, inq, work, dpc, dbatch, bat, used, calls, callID, cb, cbw,
+  /\ UNCHANGED <<basedone, nin, peerClosed, rdbuf, rdpc, inq, work, dpc, dbatch, bat, used, calls, callID, cb, cbw,
                  npush, ch, err, sendOK, wsret, gen, ncancel, crashed, out>>
 
 (***************************************************************************)
@@ -378,7 +379,7 @@ Deliver(b) ==
                           /\ out' = Emit([t |-> "reply", arr |-> B.arr,
                                           items |-> [k \in 1..Cardinality(rep) |->
                                              ReplyItem(task[B.mem[CHOOSE i \in rep : Cardinality({j \in rep : j < i}) = k - 1]])]])
-  /\ UNCHANGED <<nin, peerClosed, rdbuf, rdpc, inq, work, dpc, dbatch, nbar, calls, callID, cb, cbw, npush,
+  /\ UNCHANGED <<basedone, nin, peerClosed, rdbuf, rdpc, inq, work, dpc, dbatch, nbar, calls, callID, cb, cbw, npush,
                  ch, err, sendOK, wsret, gen, ncancel>>
 
 \* the same action named by the first member of the batch (what the harness can key on)
@@ -396,8 +397,25 @@ CancelRequest(id) ==
           IN  /\ task' = st[1] /\ semq' = st[2] /\ sem' = st[3]
               /\ used' = IF Fixed.F7 THEN used ELSE [k \in DOMAIN used \ {id} |-> used[k]]
      ELSE UNCHANGED <<task, semq, sem, used>>
-  /\ UNCHANGED <<nin, peerClosed, rdbuf, rdpc, inq, work, dpc, dbatch, nbar, bat, calls, callID, cb, cbw,
+  /\ UNCHANGED <<basedone, nin, peerClosed, rdbuf, rdpc, inq, work, dpc, dbatch, nbar, bat, calls, callID, cb, cbw,
                  npush, ch, err, sendOK, wsret, gen, crashed, out>>
+
+(***************************************************************************)
+(* The base context (ServerOptions.NewContext) ends: every request context *)
+(* is derived from it, so every call and notification in flight sees its   *)
+(* context done, semaphore waiters leave the queue, and every later        *)
+(* request starts life cancelled (its Acquire fails: no handler runs).     *)
+(***************************************************************************)
+BaseCtxEnd ==
+  /\ Alive /\ "baseend" \in Faults /\ ~basedone /\ ~wsret
+  /\ basedone' = TRUE
+  /\ LET tk1 == [x \in DOMAIN task |-> IF task[x].st \in {"todo", "semwait", "run"} THEN [task[x] EXCEPT !.cx = TRUE] ELSE task[x]]
+         st  == Settle(tk1, semq, sem)
+     IN  task' = st[1] /\ semq' = st[2] /\ sem' = st[3]
+  \* a notification that was waiting for a slot gives up (Acquire fails) and leaves the barrier
+  /\ nbar' = nbar - Cardinality({x \in SeqToSet(semq) : IsNoteTask(task[x])})
+  /\ UNCHANGED <<nin, peerClosed, rdbuf, rdpc, inq, work, dpc, dbatch, bat, used, calls, callID, cb, cbw,
+                 npush, ch, err, sendOK, wsret, gen, ncancel, crashed, out>>
 
 (***************************************************************************)
 (* Server push (pushReq / waitCallback).                                   *)
@@ -408,7 +426,7 @@ PushNotify ==
   /\ Alive /\ npush < MaxPush /\ ~wsret
   /\ npush' = npush + 1
   /\ out' = IF AllowPush /\ ch = "open" THEN Emit([t |-> "pushnote"]) ELSE out
-  /\ UNCHANGED <<nin, peerClosed, rdbuf, rdpc, inq, work, dpc, dbatch, nbar, task, bat, sem, semq, used,
+  /\ UNCHANGED <<basedone, nin, peerClosed, rdbuf, rdpc, inq, work, dpc, dbatch, nbar, task, bat, sem, semq, used,
                  calls, callID, cb, cbw, ch, err, sendOK, wsret, gen, ncancel, crashed>>
 
 PushCall(c) ==
@@ -429,13 +447,13 @@ PushCall(c) ==
                   cb' = [x \in DOMAIN cb \cup {c} |-> IF x = c THEN [id |-> callID, st |-> "done", res |-> "senderr"] ELSE cb[x]]
           /\ out' = Emit([t |-> "pushcall", id |-> callID])
   /\ IF ~AllowPush \/ ch = "nil" THEN UNCHANGED <<callID>> ELSE TRUE
-  /\ UNCHANGED <<nin, peerClosed, rdbuf, rdpc, inq, work, dpc, dbatch, nbar, task, bat, sem, semq, used,
+  /\ UNCHANGED <<basedone, nin, peerClosed, rdbuf, rdpc, inq, work, dpc, dbatch, nbar, task, bat, sem, semq, used,
                  ch, err, sendOK, wsret, gen, ncancel, crashed>>
 
 CbCtxEnd(c) ==   \* the context given to Callback ends (cancel or deadline)
   /\ Alive /\ c \in DOMAIN cb /\ cb[c].id # 0 /\ cb[c].id \in DOMAIN cbw /\ cbw[cb[c].id] = "armed"
   /\ cbw' = [cbw EXCEPT ![cb[c].id] = "gate"]
-  /\ UNCHANGED <<nin, peerClosed, rdbuf, rdpc, inq, work, dpc, dbatch, nbar, task, bat, sem, semq, used,
+  /\ UNCHANGED <<basedone, nin, peerClosed, rdbuf, rdpc, inq, work, dpc, dbatch, nbar, task, bat, sem, semq, used,
                  calls, callID, cb, npush, ch, err, sendOK, wsret, gen, ncancel, crashed, out>>
 
 CbTimeout(id) ==  \* waitCallback after <-pctx.Done(): release gate srv.waitcb.lock
@@ -446,7 +464,7 @@ CbTimeout(id) ==  \* waitCallback after <-pctx.Done(): release gate srv.waitcb.l
           /\ cb' = [c \in DOMAIN cb |-> IF cb[c].id = id /\ cb[c].st = "wait"
                                         THEN [cb[c] EXCEPT !.st = "done", !.res = "ctxerr"] ELSE cb[c]]
      ELSE UNCHANGED <<calls, cb>>
-  /\ UNCHANGED <<nin, peerClosed, rdbuf, rdpc, inq, work, dpc, dbatch, nbar, task, bat, sem, semq, used,
+  /\ UNCHANGED <<basedone, nin, peerClosed, rdbuf, rdpc, inq, work, dpc, dbatch, nbar, task, bat, sem, semq, used,
                  callID, npush, ch, err, sendOK, wsret, gen, ncancel, crashed, out>>
 
 (***************************************************************************)
@@ -459,7 +477,7 @@ WgZero == /\ rdpc = "done" /\ dpc = "done"
 WaitStatusReturn ==
   /\ Alive /\ ~wsret /\ WgZero
   /\ wsret' = TRUE
-  /\ UNCHANGED <<nin, peerClosed, rdbuf, rdpc, inq, work, dpc, dbatch, nbar, task, bat, sem, semq, used,
+  /\ UNCHANGED <<basedone, nin, peerClosed, rdbuf, rdpc, inq, work, dpc, dbatch, nbar, task, bat, sem, semq, used,
                  calls, callID, cb, cbw, npush, ch, err, sendOK, gen, ncancel, crashed, out>>
 
 Restart ==    \* Start(freshChannel) after WaitStatus returned
@@ -467,7 +485,7 @@ Restart ==    \* Start(freshChannel) after WaitStatus returned
   /\ gen' = gen + 1 /\ wsret' = FALSE
   /\ peerClosed' = FALSE /\ rdbuf' = None /\ rdpc' = "recv"
   /\ work' = "empty" /\ dpc' = "lock" /\ ch' = "open" /\ err' = "none" /\ sendOK' = TRUE
-  /\ UNCHANGED <<nin, inq, dbatch, nbar, task, bat, sem, semq, used, calls, callID, cb, cbw, npush,
+  /\ UNCHANGED <<basedone, nin, inq, dbatch, nbar, task, bat, sem, semq, used, calls, callID, cb, cbw, npush,
                  ncancel, crashed, out>>
 
 (***************************************************************************)
@@ -489,6 +507,7 @@ Next ==
   \/ \E s \in SrcSpace : DeliverS(s)
   \/ Stop
   \/ \E id \in Ids : CancelRequest(id)
+  \/ BaseCtxEnd
   \/ PushNotify
   \/ \E c \in Callers : PushCall(c)
   \/ \E c \in Callers : CbCtxEnd(c)
@@ -538,6 +557,7 @@ C07_CancelOnlyTarget ==
         \/ ch' = "nil"                                                  \* stop path
         \/ (ncancel' = ncancel + 1 /\ task[s].id \in DOMAIN used /\ used[task[s].id] = s)
         \/ (Spawned(s) /\ bat'[BatchOf(s)].sent /\ ~bat[BatchOf(s)].sent)  \* its own delivery
+        \/ (basedone' /\ ~basedone)                                      \* its base context ended
      ]_vars
 
 \* C01 (design level): a batch is sent at most once and only when all its members finished
@@ -568,5 +588,5 @@ TypeOK ==
 
 \* VIEW: everything except the observation-only output log
 View == <<nin, peerClosed, rdbuf, rdpc, inq, work, dpc, dbatch, nbar, task, bat, sem, semq,
-          used, calls, callID, cb, cbw, npush, ch, err, sendOK, wsret, gen, ncancel, crashed>>
+          used, calls, callID, cb, cbw, npush, ch, err, sendOK, wsret, gen, ncancel, crashed, basedone>>
 ====================================================================================
